@@ -72,12 +72,12 @@ def _valid_orders(template):
     return ("dates_equations", "equations_dates") if template in ("A", "As", "Ar", "N") else ("dates_equations",)
 
 
-def _implied(ptrans, lookup_in, lookup_out, name, c):
-    """value an exogenized LHS must take (documented meaning of each plan transform)"""
+def _implied(ptrans, lookup_in, lookup_out, name, c, shift=-1):
+    """value an exogenized LHS must take (documented meaning of each plan transform; `shift` = the lag the transform refers to)"""
     if ptrans in (None, "none"):
         return lookup_in(name, c)
     d = lookup_in(f"{ptrans}_{name}", c)
-    prev = lookup_out(name, c - 1)
+    prev = lookup_out(name, c + shift)
     if ptrans == "log":
         return EXPF(d)
     if ptrans == "diff":
@@ -139,12 +139,14 @@ def _build(ir, template, T1, T2, nper, plan_spec, values=None):
     plan = None
     if plan_spec is not None:
         plan = ir.SimulationPlan(m, span)
-        for (name, k, ptrans, when_data, have_data) in plan_spec:
+        for (name, k, ptrans, when_data, have_data, *_sh) in plan_spec:
             kw = {}
             if ptrans not in (None, "none"):
                 kw["transform"] = ptrans
             if when_data:
                 kw["when_data"] = True
+            if _sh:
+                kw["shift"] = _sh[0]          # the lag the transform refers to (default -1)
             plan.exogenize(start + k, name, **kw)
             dname = name if ptrans in (None, "none") else f"{ptrans}_{name}"
             col = nlag + k
@@ -192,10 +194,10 @@ def _obligations(cap, eqs, plan_spec, nper):
     row = {n: i for i, n in enumerate(names)}
     claims = []
     exo = {}
-    for (name, k, ptrans, when_data, have_data) in (plan_spec or ()):
+    for (name, k, ptrans, when_data, have_data, *_sh) in (plan_spec or ()):
         if when_data and not have_data:
             continue       # no data: the point is simulated normally
-        exo[(name, k)] = ptrans
+        exo[(name, k)] = (ptrans, _sh[0] if _sh else -1)
     base = cap["base_columns"]
     lhs_names = tuple(_lhs_name(e) for e in eqs)
     for bi, c in enumerate(base):
@@ -212,7 +214,7 @@ def _obligations(cap, eqs, plan_spec, nper):
                 continue
             res = f"res_{lhs_name}"
             if (lhs_name, bi) in exo:
-                imp = _implied(exo[(lhs_name, bi)], lambda n, cc: inp[row[n], cc], lambda n, cc: out[row[n], cc], lhs_name, c)
+                imp = _implied(exo[(lhs_name, bi)][0], lambda n, cc: inp[row[n], cc], lambda n, cc: out[row[n], cc], lhs_name, c, shift=exo[(lhs_name, bi)][1])
                 claims.append((f"exogenized:{lhs_name}@{bi}", out[row[lhs_name], c], imp))
             else:
                 claims.append((f"residual_unchanged:{res}@{bi}", out[row[res], c], inp[row[res], c]))
@@ -229,7 +231,7 @@ def _obligations(cap, eqs, plan_spec, nper):
 def _free_cells(plan_spec, base0):
     """symbols of exogenized data points: unrestricted reals (so that an implied value of exactly 0 is reachable)"""
     out = set()
-    for (name, k, ptrans, when_data, have_data) in (plan_spec or ()):
+    for (name, k, ptrans, when_data, have_data, *_sh) in (plan_spec or ()):
         dname = name if ptrans in (None, "none") else f"{ptrans}_{name}"
         out.add(f"{dname}__{base0 + k}")
     return out
@@ -323,6 +325,10 @@ def _plans(tier, T1, T2, nper, idx, tpl="A"):
     """plan specs: tuples (lhs name, period index, plan transform, when_data, data present)"""
     yield None
     k = nper - 1
+    if tpl in ("A", "B") and (tier != "quick" or idx % 4 == 0):
+        # a plan transform referring to the value TWO periods back (shift=-2; the model's own lags provide the pre-sample)
+        for pt in (("diff_log", "pct") if tier == "quick" else _LAG_PLAN_TRANSFORMS):
+            yield (("x", k, pt, False, True, -2),)
     if tpl == "N":
         # lag-reading plan transforms in the first simulated period of a model that has no lag of its own
         lagged = _LAG_PLAN_TRANSFORMS if tier != "quick" else (_LAG_PLAN_TRANSFORMS[idx % 4],)
@@ -456,10 +462,10 @@ def replay(case):
     cap = dict(names=tuple(names) + ("a", "b"), base_columns=tuple(range(nlag, ncol)))
     # float twin of _obligations
     exo = {}
-    for (name, k, ptrans, when_data, have_data) in (plan_spec or ()):
+    for (name, k, ptrans, when_data, have_data, *_sh) in (plan_spec or ()):
         if when_data and not have_data:
             continue
-        exo[(name, k)] = ptrans
+        exo[(name, k)] = (ptrans, _sh[0] if _sh else -1)
     worst, msg = 0.0, "all obligations hold"
     lhs_names = tuple(_lhs_name(e) for e in eqs)
 
@@ -485,7 +491,7 @@ def replay(case):
                     continue
                 if (lhs_name, bi) in exo:
                     try:
-                        imp = _implied(exo[(lhs_name, bi)], gin, gout, lhs_name, c)
+                        imp = _implied(exo[(lhs_name, bi)][0], gin, gout, lhs_name, c, shift=exo[(lhs_name, bi)][1])
                     except (ValueError, OverflowError):
                         continue
                     cmp(f"exogenized:{lhs_name}@{bi}", gout(lhs_name, c), imp)
